@@ -573,6 +573,11 @@ static void update_offset(printbuffer * const buffer)
 static cJSON_bool compare_double(double a, double b)
 {
     double maxVal = fabs(a) > fabs(b) ? fabs(a) : fabs(b);
+    if (isinf(a) || isinf(b))
+    {
+        /* an infinite value only equals itself, the tolerance below would be infinite too */
+        return (a == b);
+    }
     return (fabs(a - b) <= maxVal * DBL_EPSILON);
 }
 
